@@ -170,6 +170,13 @@ def known_findings():
     return json.load(open(p))
 
 
+class ImplCrash(Exception):
+    """the real code crashed (signal / abort) on a concrete input; payload identifies it"""
+    def __init__(self, msg, payload):
+        Exception.__init__(self, msg)
+        self.payload = payload
+
+
 class Ctx:
     def __init__(self, pid, tier=None, seed=None):
         self.pid = pid
